@@ -139,7 +139,31 @@ def run_case(case):
 
 def _run_training(model, mode, X, y, K, n, rs, cb, spy, updates):
     with seams.scripted_rng(rs), seams.optimiser_spy(cb):
-        if mode in ("refit_up", "refit_down"):
+        if mode == "after_failed_path":
+            # history: the same object first ran a path on FEWER samples that was refused half-way (dynamic mode, a penalty that empties the
+            # selection; or non-finite data), then is fitted on the data under test
+            import warnings
+            n0 = max(K, n - 3)
+            X0 = seams.tiny_data(n0, 2, 4) if n0 <= 12 else np.random.RandomState(3100 + n0).normal(size=(n0, 2))
+            keep = model.get_params(deep=False) if not hasattr(model._batchify, "indices") else None
+            for bad in ("empty_selection", "nan"):
+                try:
+                    with warnings.catch_warnings():
+                        warnings.simplefilter("ignore")
+                        if bad == "empty_selection":
+                            model.set_params(alpha=1e4, dynamic=True) if "dynamic" in model.get_params() else None
+                            model.path(X0, alpha_multiplier=5.0, min_features=1, max_patience=1)
+                        else:
+                            Xn = X0.copy()
+                            Xn[0, 0] = np.nan
+                            model.path(Xn)
+                except Exception:  # noqa
+                    pass
+            model.set_params(alpha=0.5, dynamic=False) if "dynamic" in model.get_params() else None
+            del spy.log[:]
+            updates["n"] = 0
+            model.fit(X, y)
+        elif mode in ("refit_up", "refit_down"):
             # history: the same (possibly decorated) instance was first fitted on data of another size
             n0 = max(K, n - 2) if mode == "refit_up" else n + 2
             X0 = seams.tiny_data(n0, 2, 4) if n0 <= 12 else np.random.RandomState(3100 + n0).normal(size=(n0, 2))
@@ -215,7 +239,7 @@ def _judge(case, model, spy, X, y, K, n, rs, updates, used, where, v, step_sel):
         if len(flat) == len(used) and any(a_ != b_ for a_, b_ in zip(flat, used)):
             k_ = next(i for i, (a_, b_) in enumerate(zip(flat, used)) if a_ != b_)
             v.append(violation("decorated_indices_stale_when_the_gradient_is_computed", {"step": k_, "batch": flat[k_], "recorded_at_use": used[k_]}, **where))
-    if mode in ("fit", "refit_up", "refit_down"):
+    if mode in ("fit", "refit_up", "refit_down", "after_failed_path"):
         if len(spy.log) != max_iter:
             v.append(violation("wrong_number_of_epochs", {"epochs": len(spy.log), "max_iter": max_iter}, **where))
         if updates["n"] != max_iter * nb:
@@ -284,6 +308,11 @@ def explorers(tier, seed):
                     for decorated in (False, True):
                         for aff_mode in (["none"] if family == "KernelRIM" else ["precomputed"]):
                             cases.append((family, n, f"{sp}:{bs}", aff_mode, 2, decorated, (), "fit"))
+    for family in ("SparseLinearModel", "SparseMLPModel"):
+        for n in (6, 9, 33):
+            for bs in (None, 4):
+                for aff_mode in ("none", "computed"):
+                    cases.append((family, n, bs, aff_mode, 2, False, (), "after_failed_path"))
     pc = []
     for family in ("SparseLinearModel", "SparseMLPModel"):
         for sp in ("np64", "verbose"):
